@@ -7,6 +7,7 @@ package chainlab
 
 import (
 	"fmt"
+	"math/big"
 	"math/rand/v2"
 	"sync"
 	"time"
@@ -74,6 +75,11 @@ type Params struct {
 	KeySeed       uint64
 	// FoundationIsWallet re-points the foundation subsidy at the wallet actor.
 	FoundationActor string
+	// HiDiff starts the network at a per-block difficulty of 2^10 with a matching
+	// hashrate estimate, so that "sufficiently heavier" (a fifth of the tip's
+	// difficulty) is a non-zero margin and forks of equal length with different
+	// timestamps are near ties.
+	HiDiff bool `json:",omitempty"`
 }
 
 // RandomParams draws hardfork heights for a regime.
@@ -114,6 +120,17 @@ func NewEnv(p Params) *Env {
 	n.HardforkV2.AllowHeight = p.Allow
 	n.HardforkV2.RequireHeight = p.Require
 	n.HardforkV2.FinalCutHeight = p.FinalCut
+
+	if p.HiDiff {
+		work := func(w int64) (id types.BlockID) {
+			t := new(big.Int).Div(new(big.Int).Lsh(big.NewInt(1), 256), big.NewInt(w))
+			t.FillBytes(id[:])
+			return
+		}
+		n.InitialTarget = work(1 << 10)
+		n.HardforkASIC.OakTime = 200 * n.BlockInterval
+		n.HardforkASIC.OakTarget = work(200 << 10)
+	}
 
 	env := &Env{Regime: p.Regime, Net: n, ByName: map[string]*Actor{}, ByAddr: map[types.Address]*Actor{}}
 	for _, name := range []string{Miner, Alice, Bob, Renter, Host, Wallet} {
